@@ -799,5 +799,177 @@ func testPipeline(t *testing.T) {
 		}
 		rd.Finish("Calcium.Send (non-chunked path) on the same world: corpus of 12 (empty file, several files, missing / duplicated target, aborting engine, default permission, no files, no ids), then random: 1-3 files of 0-4500 bytes to 1-3 of 3 workloads, 50% all drain, 15% one missing, 10% duplicated, 15% aborting engine, 10% drain then error; non-trivial = at least one file and one target")
 	}
+	// ---- stream "multifile": several files on ONE SendLargeFile input channel ----
+	{
+		rm := vh.New(t, "C29", "multifile")
+		rm.Coq("From Verif Require Import Xfer.Pipeline Xfer.Multi.", "Multi.mcase", "Multi.magree", "Multi.mok")
+		runMulti := func(kind string, sizes []int, targets []int, beh []behaviour) {
+			files := make([]types.LinuxFile, len(sizes))
+			fmap := map[string]types.LinuxFile{}
+			fidx := map[string]int{}
+			for i, n := range sizes {
+				content := make([]byte, n)
+				for k := range content {
+					content[k] = byte((k*13 + i) % 249)
+				}
+				files[i] = types.LinuxFile{Content: content, Filename: fmt.Sprintf("/data/m%d", i), UID: 1001, GID: 1002, Mode: 0o640}
+				fmap[files[i].Filename] = files[i]
+				fidx[files[i].Filename] = i
+			}
+			theHub.mu.Lock()
+			theHub.beh = map[string]behaviour{}
+			for i, b := range beh {
+				theHub.beh[wids[i]] = b
+			}
+			theHub.files, theHub.drecv = fmap, map[string]*received{}
+			theHub.mu.Unlock()
+			ids := make([]string, len(targets))
+			for i, o := range targets {
+				if o < 0 {
+					ids[i] = missing
+				} else {
+					ids[i] = wids[o]
+				}
+			}
+			ctx, cancel := context.WithCancel(w.Ctx)
+			dc := make(chan *types.SendLargeFileOptions)
+			resp := w.C.SendLargeFile(ctx, dc)
+			stop := make(chan struct{})
+			go func() {
+				defer close(dc)
+				for _, f := range files { // one stream, file after file
+					for _, chunk := range rpc.VerifToSendLargeFileChunks(f, ids) {
+						select {
+						case dc <- chunk:
+						case <-stop:
+							return
+						}
+					}
+				}
+			}()
+			type mm struct{ T, F int }
+			var msgs []mm
+			finished := false
+			deadline := time.After(5 * time.Second)
+		loop:
+			for {
+				select {
+				case m, ok := <-resp:
+					if !ok {
+						finished = true
+						break loop
+					}
+					x := mm{-1, -1}
+					if o, ok := ord[m.ID]; ok {
+						x.T = o
+					}
+					if i, ok := fidx[m.Path]; ok {
+						x.F = i
+					}
+					msgs = append(msgs, x)
+				case <-deadline:
+					break loop
+				}
+			}
+			if !finished {
+				close(stop)
+				go func() {
+					for range resp {
+					}
+				}()
+				time.Sleep(50 * time.Millisecond)
+			}
+			cancel()
+			sort.Slice(msgs, func(i, j int) bool {
+				if msgs[i].T != msgs[j].T {
+					return msgs[i].T < msgs[j].T
+				}
+				return msgs[i].F < msgs[j].F
+			})
+			opt := func(v int) string {
+				if v < 0 {
+					return "None"
+				}
+				return fmt.Sprintf("(Some %d)", v)
+			}
+			ms := make([]string, len(msgs))
+			for i, m := range msgs {
+				ms[i] = vh.Pair(opt(m.T), opt(m.F))
+			}
+			theHub.mu.Lock()
+			rows := make([]string, len(wids))
+			for i, id := range wids {
+				cells := make([]string, len(files))
+				for k, f := range files {
+					rec := theHub.drecv[id+"|"+f.Filename]
+					n := 0
+					if rec != nil && rec.prefix {
+						n = rec.n
+					} else if rec != nil {
+						n = 1 << 20 // garbled: not representable, forces a mismatch
+					}
+					cells[k] = vh.Nat(n)
+				}
+				rows[i] = vh.List(cells)
+			}
+			theHub.files = nil
+			theHub.mu.Unlock()
+			szs := make([]string, len(sizes))
+			for i, n := range sizes {
+				szs[i] = vh.Nat(n)
+			}
+			tg := make([]string, len(targets))
+			for i, o := range targets {
+				tg[i] = opt(o)
+			}
+			bs := make([]string, len(beh))
+			for i, b := range beh {
+				if b.Kind == "Abort" {
+					bs[i] = fmt.Sprintf("(GiveUp %d)", b.K)
+				} else {
+					bs[i] = b.Kind
+				}
+			}
+			term := fmt.Sprintf("(mkMCase %s %s %s %s %s %s)", vh.List(szs), vh.List(tg), vh.List(bs), vh.Bool(finished), vh.List(ms), vh.List(rows))
+			desc := map[string]any{"kind": kind, "sizes": sizes, "targets": targets, "behaviours": beh, "finished": finished, "messages": msgs}
+			rm.Count("kind=" + kind)
+			rm.Count(fmt.Sprintf("files=%d", len(sizes)))
+			rm.Count(fmt.Sprintf("finished=%v", finished))
+			rm.Add(term, desc, map[string]any{"stream": "multifile", "files": len(sizes), "several_files": len(sizes) > 1}, len(sizes) > 1)
+			if !finished {
+				fresh()
+			}
+		}
+		mc := []struct {
+			sizes   []int
+			targets []int
+			beh     []behaviour
+		}{
+			{[]int{100}, []int{0, 1}, all},
+			{[]int{100, 200}, []int{0}, all},                         // second file is dropped
+			{[]int{3000, 5, 4100}, []int{0, 1}, all},                 //
+			{[]int{10, 30000}, []int{2}, all},                        // large second file (15 chunks): drained, call finishes
+			{[]int{2048, 2048}, []int{0, -1}, all},                   //
+			{[]int{50, 60}, []int{0}, []behaviour{AB(10), D, D}},     //
+		}
+		for _, c := range mc {
+			runMulti("corpus", c.sizes, c.targets, c.beh)
+		}
+		nm := rm.N(8, 120)
+		for i := 0; i < nm; i++ {
+			nf := 1 + rng.Intn(3)
+			var sizes []int
+			for k := 0; k < nf; k++ {
+				sizes = append(sizes, 1+rng.Intn(9000))
+			}
+			perm := rng.Perm(3)
+			var targets []int
+			for k := 0; k < 1+rng.Intn(3); k++ {
+				targets = append(targets, perm[k])
+			}
+			runMulti("random", sizes, targets, []behaviour{D, D, D})
+		}
+		rm.Finish("several files (1-3, 1-9000 bytes, distinct destinations) put one after the other on ONE SendLargeFile input channel, to 1-3 real workloads with draining engines (corpus also: missing target, aborting engine, a 15-chunk second file); non-trivial = more than one file")
+	}
 	r.Finish("corpus of 19 transfers (one byte, empty file, 1/3/14/40 chunks, missing target small+large, engine rejecting at once / after a partial read, buffer boundary 11/12 chunks, read-all-then-error, duplicated targets, engine returning success unread, no targets), then random transfers: size empty / below a chunk / 1-8 chunks / 9-38 chunks, 1-3 of 3 real workloads, 45% all engines drain, 15% one missing target, 10% duplicated target, 20% one engine aborts after k bytes, 10% drain then error; each through the real Calcium.SendLargeFile with a 5 s deadline; non-trivial = non-empty file and at least one target")
 }
